@@ -61,7 +61,7 @@ void generate(sim::Rng &r, uint64_t seed, const std::string &tier, sim::Plan &p)
     }
     else if (x < 63 && nl > 1 && r.chance(400)) { op.kind = "flood"; op.a = {(long)r.below(NSG), (long)r.below((uint64_t)nl), r.range(1100, 1400)}; }
     else if (x < 66) { op.kind = "craise"; op.a = {(long)r.below((uint64_t)nev), (long)r.below(2), (long)r.below(NSG), (long)r.below((uint64_t)nl + 1)}; }
-    else if (x < 72 && nl > 1) { op.kind = "pair"; op.a = {(long)r.below((uint64_t)nev), (long)r.below(2), (long)r.below((uint64_t)nev), (long)r.below(2)}; }
+    else if (x < 77 && nl > 1) { op.kind = "pair"; op.a = {(long)r.below((uint64_t)nev), (long)r.below(2), (long)r.below((uint64_t)nev), (long)r.below(2)}; }
     else { op.kind = "raise"; op.a = {(long)r.below(NSG), (long)r.below((uint64_t)nl + 1)}; }
     p.ops.push_back(op);
   }
